@@ -23,6 +23,10 @@ theorem ravel_bound (s : Shape) (i : List Nat) (h : inb s i) : ravel s i < numel
 
 theorem unravel_valid (s : Shape) (k : Nat) (h : k < numel s) : inb s (unravel s k) := unravel_inb h
 
+/-- flat and multi-indices are in bijection: `ravel` is injective on valid multi-indices -/
+theorem ravel_injective (s : Shape) (i j : List Nat) (hi : inb s i) (hj : inb s j) (h : ravel s i = ravel s j) : i = j := by
+  rw [← unravel_ravel' hi, ← unravel_ravel' hj, h]
+
 example : unravel [2, 3, 4] (ravel [2, 3, 4] [1, 2, 3]) = [1, 2, 3] ∧ ravel [2, 3, 4] [1, 2, 3] = 23 := by decide
 
 /-! ## broadcasting of binary op sites -/
@@ -90,6 +94,20 @@ theorem broadcast_lastdim {α β γ : Type} (f : α → β → γ) (d : Nat) (hd
     ∃ r, binop f d d x y = some r ∧ r.shape = out ∧ r.last = d := by
   obtain ⟨r, h1, h2, h3, _⟩ := broadcast_itemwise f d d hd x y out h
   exact ⟨r, h1, h2, by rw [h3]; split <;> rfl⟩
+
+/-- a shape broadcasts with itself to itself (the same-shape call is the un-broadcast op) -/
+theorem broadcast_self (s : Shape) : broadcastShapes s s = some s := by
+  unfold broadcastShapes; simp [padTo_self, bzip_self]
+
+/-- same-shape operands: the pairing is the identity, `out[i] = f x[i] y[i]` -/
+theorem broadcast_same_shape {α β γ : Type} (f : α → β → γ) (d : Nat) (hd : 0 < d) (x : T α) (y : T β)
+    (h : x.shape = y.shape) :
+    ∃ r, binop f d d x y = some r ∧ r.shape = x.shape ∧ ∀ i, inb x.shape i → r.get i = f (x.get i) (y.get i) := by
+  have hb : broadcastShapes x.shape y.shape = some x.shape := by rw [← h]; exact broadcast_self _
+  obtain ⟨r, h1, h2, _, h4⟩ := broadcast_itemwise f d d hd x y x.shape hb
+  refine ⟨r, h1, h2, ?_⟩
+  intro i hi
+  rw [h4 i hi, proj_self hi, ← h, proj_self hi]
 
 /-- Non-broadcastable lshapes: the op site raises (and never returns a value). -/
 theorem broadcast_raises {α β γ : Type} (f : α → β → γ) (dOut dDecl : Nat) (x : T α) (y : T β)
@@ -285,6 +303,43 @@ theorem pipeline_gather (s : Shape) (sts : List Step) (m : IMap) (h : (IMap.id s
     m.Valid (numel s) :=
   steps_valid (numel s) sts (IMap.id s) m (fun _ hk => hk) h
 
+/-- **Pipelines have multi-index semantics.** For every accepted pipeline there is a map `G` on multi-indices
+(the composition of the steps' maps) such that every valid output index reads the valid input index `G i`. -/
+theorem pipeline_multi {α : Type} (x : T α) : ∀ (sts : List Step) (m : IMap) (G : List Nat → List Nat),
+    (∀ i, inb m.out i → inb x.shape (G i) ∧ m.src (ravel m.out i) = ravel x.shape (G i)) →
+    ∀ m', m.steps sts = some m' →
+      ∃ G' : List Nat → List Nat, ∀ i, inb m'.out i → inb x.shape (G' i) ∧ (m'.gather x).get i = x.get (G' i)
+  | [], m, G, hG, m', h => by
+    simp [IMap.steps] at h; subst h
+    refine ⟨G, fun i hi => ⟨(hG i hi).1, ?_⟩⟩
+    simp only [IMap.gather, T.get]
+    rw [(hG i hi).2]
+  | st :: rest, m, G, hG, m', h => by
+    simp only [IMap.steps] at h
+    cases hs : m.step st with
+    | none => simp [hs] at h
+    | some m1 =>
+      simp only [hs] at h
+      unfold IMap.step at hs
+      cases ha : st.apply m.out with
+      | none => simp [ha] at hs
+      | some sg =>
+        obtain ⟨s', g⟩ := sg
+        simp only [ha, Option.some.injEq] at hs
+        subst hs
+        apply pipeline_multi x rest _ (fun i => G (g i)) _ m' h
+        intro i hi
+        have hgi := step_inb ha hi
+        refine ⟨(hG _ hgi).1, ?_⟩
+        simp only
+        rw [unravel_ravel' hi]
+        exact (hG _ hgi).2
+
+/-- the corollary from the identity map: `X.f₁(…).f₂(…)…` holds at `i` the input item at `G i` -/
+theorem pipeline_items {α : Type} (x : T α) (sts : List Step) (m : IMap) (h : (IMap.id x.shape).steps sts = some m) :
+    ∃ G : List Nat → List Nat, ∀ i, inb m.out i → inb x.shape (G i) ∧ (m.gather x).get i = x.get (G i) :=
+  pipeline_multi x sts (IMap.id x.shape) (fun i => i) (fun _ hi => ⟨hi, rfl⟩) m h
+
 /-- `reshape`-family functions keep the row-major order of the items (flat identity). -/
 theorem reshape_flat (s s' : Shape) (hn : numel s' = numel s) :
     ∃ m, (IMap.id s).step (.reshape s') = some m ∧ m.out = s' ∧ ∀ k, k < numel s' → m.src k = k := by
@@ -334,6 +389,27 @@ example : ((IMap.id [2, 3]).steps [.permute [1, 0], .index 0 [2, 0], .reshape [4
     (fun m => (m.out, (List.range 4).map m.src)) = some ([4], [2, 5, 0, 3]) := by decide
 example : (catFlat [[2, 1], [2, 2]] 1).map (fun r => (r.1, (List.range 6).map r.2)) =
     some ([2, 3], [(0, 0), (1, 0), (1, 1), (0, 1), (1, 2), (1, 3)]) := by decide
+
+/-! non-vacuity of the hypotheses above: every kind of step / map is accepted on concrete non-trivial shapes -/
+example : ((Step.reshape [3, 2]).apply [2, 3]).map (·.1) = some [3, 2] ∧
+    ((Step.permute [2, 0, 1]).apply [2, 3, 4]).map (·.1) = some [4, 2, 3] ∧
+    ((Step.index 1 [2, 2, 0]).apply [2, 3]).map (·.1) = some [2, 3] ∧
+    ((Step.expand [4, 2, 3]).apply [2, 1]).map (·.1) = some [4, 2, 3] ∧
+    ((Step.repeat_ [2, 1, 2]).apply [2, 3]).map (·.1) = some [2, 2, 6] ∧
+    ((Step.expand [2, 2]).apply [2, 3]).map (·.1) = none ∧ ((Step.index 0 [2]).apply [2, 3]).map (·.1) = none := by decide
+example : (overwriteFlat [2, 3] 1 [2, 0]).map (fun r => (r.1, (List.range 6).map r.2)) =
+    some ([2, 3], [(1, 1), (0, 1), (1, 0), (1, 3), (0, 4), (1, 2)]) := by decide
+example : (gatherFlat [2, 3] [1, 3] 0 (fun k => [1, 0, 1].getD k 0)).map (fun r => (r.1, (List.range 3).map r.2)) =
+    some ([1, 3], [3, 1, 5]) := by decide
+example : (List.range 6).map (scatterFlat [2, 3] [1, 3] [1, 3] 0 (fun k => [1, 0, 1].getD k 0)) =
+    [(0, 0), (1, 1), (0, 2), (1, 0), (0, 4), (1, 2)] := by decide
+example : (binop (fun a b => (a, b)) 3 3 ⟨[2, 1], fun k => k⟩ ⟨[3], fun k => k⟩).map
+    (fun r => (r.shape, r.last, (List.range 6).map r.data)) =
+    some ([2, 3], 3, [(0, 0), (0, 1), (0, 2), (1, 0), (1, 1), (1, 2)]) := by decide
+example : (binop (fun (a b : Nat) => (a, b)) 3 3 ⟨[0, 1], fun k => k⟩ ⟨[3], fun k => k⟩).map (fun r => (r.shape, r.last)) =
+    some ([0, 3], 3) ∧
+    (binop (fun (a b : Nat) => (a, b)) 3 3 ⟨[], fun k => k⟩ ⟨[], fun k => k⟩).map (fun r => (r.shape, r.last, r.data 0)) =
+    some ([], 3, (0, 0)) := by decide
 
 /-! ## `retain_ltype` / `func.jacrev`: the patch is undone on every exit path -/
 namespace Retain
@@ -498,6 +574,83 @@ theorem retain_patches (ord : List Nat) (hnd : ord.Nodup) (s : Nat) (hs : s ∈ 
         exact (List.nodup_cons.mp hnd).1 hq
       rw [gen _ _ (fun q => Fn.orig q) (by intro q hq; simp [Table.set, hq]) s hne hno]
       exact ih (List.nodup_cons.mp hnd).2 hs'
+
+theorem pristine_wellHomed (ord : List Nat) : WellHomed ord pristine := by
+  intro s _; left; rfl
+
+/-- From the pristine table the theorem applies to every body: unconditional form of `retain_restores`. -/
+theorem retain_restores_pristine (ord : List Nat) (h3 : 3 ∉ ord) (body : Body) (failAt : Option Nat) :
+    ∀ q, q ≠ 3 → (retain ord pristine body failAt).1 q = Fn.orig q :=
+  retain_restores ord h3 pristine (pristine_wellHomed ord) body failAt
+
+theorem patched_wellHomed {ord : List Nat} {t : Table} (h : Patched ord t) : WellHomed ord t := by
+  intro s hs; right; rw [h s hs]; rfl
+
+theorem captured_home3 {ord : List Nat} {t : Table} (h : Patched ord t) : ∀ f ∈ captured t ord, home f = 3 := by
+  intro f hf
+  obtain ⟨s, hs, rfl⟩ := List.mem_map.mp hf
+  rw [h s hs]; rfl
+
+/-- **Inside the context every call finds a wrapper** — at any nesting depth, before or after inner contexts
+have exited or raised: the log of a body run in a patched table consists of wrappers of originals only. -/
+theorem run_log_wrapped (ord : List Nat) (h3 : 3 ∉ ord) : ∀ (b : Body) (t : Table), Patched ord t → b.callsIn ord →
+    ∀ f ∈ (run ord t b).2.2, ∃ s ∈ ord, f = Fn.wrap (Fn.orig s) := by
+  intro b
+  induction b with
+  | ret => intro t _ _ f hf; simp [run] at hf
+  | raise => intro t _ _ f hf; simp [run] at hf
+  | call s k ih =>
+    intro t hp hc f hf
+    simp only [Body.callsIn] at hc
+    simp only [run, List.mem_cons] at hf
+    rcases hf with rfl | hf
+    · exact ⟨s, hc.1, hp s hc.1⟩
+    · exact ih t hp hc.2 f hf
+  | nest inner k ihi ihk =>
+    intro t hp hc f hf
+    simp only [Body.callsIn] at hc
+    have hh3 := captured_home3 hp
+    have hne : ∀ s ∈ ord, ∀ g ∈ captured t ord, home g ≠ s := by
+      intro s hs g hg e
+      rw [hh3 g hg] at e
+      exact h3 (e ▸ hs)
+    have hp1 : Patched ord (patch t (captured t ord)) := by
+      intro s hs
+      rw [patch_other _ _ s (hne s hs)]; exact hp s hs
+    have hpres := run_preserves ord h3 inner _ (patched_wellHomed hp1)
+    simp only [run] at hf
+    cases hr : run ord (patch t (captured t ord)) inner with
+    | mk t1 ol =>
+      obtain ⟨o, l⟩ := ol
+      have hl : ∀ g ∈ l, ∃ s ∈ ord, g = Fn.wrap (Fn.orig s) := by
+        have := ihi _ hp1 hc.1
+        rw [hr] at this
+        exact this
+      rw [hr] at hf hpres
+      simp only at hpres
+      cases o with
+      | raised => simp only at hf; exact hl f hf
+      | ok =>
+        simp only at hf
+        have hp2 : Patched ord (restore t1 (captured t ord)) := by
+          intro s hs
+          have hs3 : s ≠ 3 := fun e => h3 (e ▸ hs)
+          rw [restore_other _ _ s (hne s hs), hpres s hs3]
+          exact hp1 s hs
+        rcases List.mem_append.mp hf with h1 | h2
+        · exact hl f h1
+        · exact ihk _ hp2 hc.2 f h2
+
+/-- `retain_ltype()` entered from the pristine table: every call made by the body (any nesting, any point) finds
+the wrapper of the original — and afterwards the originals are back (`retain_restores`). -/
+theorem retain_calls_wrapped (ord : List Nat) (hnd : ord.Nodup) (h3 : 3 ∉ ord) (body : Body) (hc : body.callsIn ord) :
+    ∀ f ∈ (retain ord (fun q => Fn.orig q) body none).2.2, ∃ s ∈ ord, f = Fn.wrap (Fn.orig s) := by
+  have hp : Patched ord (patch (fun q => Fn.orig q) (captured (fun q => Fn.orig q) ord)) :=
+    fun s hs => retain_patches ord hnd s hs
+  have := run_log_wrapped ord h3 body _ hp hc
+  unfold retain
+  simp only
+  exact this
 
 example : let t0 : Table := fun q => Fn.orig q
     let r := retain [2, 0, 1] t0 (.call 0 (.nest (.call 1 .raise) .ret)) none
